@@ -119,6 +119,9 @@ Definition ty_name (t : ty) : str :=
   end.
 Definition type_error (v : val) (t : ty) : val :=
   VLispErr (VStr (s_ "reflect: Call using " ++ go_type_name v ++ s_ " as type " ++ ty_name t)) None.
+(** for an argument that lands in the variadic slice reflect words it differently *)
+Definition type_error_variadic (v : val) (t : ty) : val :=
+  VLispErr (VStr (s_ "reflect: cannot use " ++ go_type_name v ++ s_ " as type " ++ ty_name t ++ s_ " in Call")) None.
 
 (** the first argument reflect rejects *)
 Fixpoint first_bad (fx : list ty) (va : option ty) (i : nat) (args : list val) : option (val * ty) :=
@@ -130,6 +133,10 @@ Fixpoint first_bad (fx : list ty) (va : option ty) (i : nat) (args : list val) :
               end
   end.
 
+(** reflect checks the fixed parameters first, then the elements of the variadic slice *)
+Definition first_bad_fixed (fx : list ty) (args : list val) : option (val * ty) :=
+  first_bad fx None 0 (firstn (length fx) args).
+
 (** `_args`/`_args_ctx` then reflect.Value.Call's own checks: is the Go function entered? *)
 Definition gate (s : bsig) (mn mx : Z) (args : list val) : outcome unit :=
   let '(lo, hi) := lisp_bounds s mn mx in
@@ -140,7 +147,11 @@ Definition gate (s : bsig) (mn mx : Z) (args : list val) : outcome unit :=
        then Err arity_error                                                        (* reflect: too many input arguments *)
   else match first_bad (fixed s) (variadic s) 0 args with
        | None => Ok tt
-       | Some (v, t) => Err (type_error v t)
+       | Some (v, t) =>
+           match first_bad_fixed (fixed s) args with
+           | Some (v', t') => Err (type_error v' t')
+           | None => Err (type_error_variadic v t)
+           end
        end.
 
 (** `_recover`: a panic inside the bound function becomes a catchable error; an error panic
